@@ -195,6 +195,8 @@ pub fn gen(ctx: &mut Ctx) {
         // the same source date handed over as another argument type (SystemTime, DateTime in some zone): same package
         let sdk = *ctx.rng.pick(&["u32", "u32", "st", "dt+0000", "dt+0200", "dt-0930", "dt+1400", "dt-1200"]);
         if sdk != "u32" { extra.push_str(&format!(" sdk={}", sdk)); }
+        // the order of the setter calls: compression() after source_date() in half of the configurations
+        if ctx.rng.chance(1, 2) { extra.push_str(" clast"); }
         let nown = ctx.rng.below(6);
         for k in 0..nown {
             let u = *ctx.rng.pick(&users);
